@@ -262,22 +262,30 @@ def get(name):
 
 # ---- exact numbers ---------------------------------------------------------------
 def dyadic(x):
-    """float -> [num, e] with x == num / 2**e exactly and |num| < 2**30, else None"""
+    """float -> [num, e] with x == num / 2**e, e <= 12.  Float rounding is outside the model
+    (DESIGN 2.7-5): a value within 1e-5 of a multiple of 2^-12 is that multiple (torch's complex64
+    powers of i carry ~1e-7 noise); anything else is returned as None (inexact)."""
     if hasattr(x, "item"):
         x = x.item()
     if isinstance(x, (bool, int)):
-        return [int(x), 0] if abs(int(x)) < 2 ** 30 else None
+        return [int(x), 0] if abs(int(x)) < 2 ** 20 else None
     if isinstance(x, complex):
-        if x.imag != 0:
+        if abs(x.imag) > 1e-5:
             return None
         x = x.real
-    if not isinstance(x, float) or x != x or x in (float("inf"), float("-inf")):
+    if not isinstance(x, float) or x != x or x in (float("inf"), float("-inf")) or abs(x) >= 2 ** 18:
         return None
-    num, den = x.as_integer_ratio()
-    e = den.bit_length() - 1
-    if abs(num) >= 2 ** 30 or e > 60:
+    q = round(x * 4096)
+    if abs(x * 4096 - q) > 1e-5 * 4096:
         return None
-    return [num, e]
+    e = 12
+    while e > 0 and q % 2 == 0:
+        q //= 2
+        e -= 1
+    return [q, e]
+
+
+INEXACT = [7, 20]      # sentinel: 7/2^20 is never a legitimate value (denominators stay <= 2^12)
 
 
 def cdyadic(z):
